@@ -15,13 +15,15 @@
 (*   1 = deviation ids used   2 = unexplained <<trace, line>> pairs        *)
 (*   3 = high-water mark of l 4 = lines judged  5 = lines skipped          *)
 (***************************************************************************)
-EXTENDS FsDev, Json, IOUtils
+EXTENDS Wrappers, Json, IOUtils
 
 Trace == ndJsonDeserialize(IOEnv.VERIF_TRACE)
 Impl == IOEnv.VERIF_IMPL
 
-VARIABLES l, st, bad
-tvars == <<l, st, bad>>
+VARIABLES l, st, bad,
+          w,    \* wrapper the calls go through: "none", "rofs", ... (set by the pseudo call "wrap")
+          mt    \* digest of all modification times of the base, as logged (must not change under a read-only wrapper)
+tvars == <<l, st, bad, w, mt>>
 
 \* the logged projection: "same" arrives as a sequence of paths
 PostOf(ev) == {[ev.post[i] EXCEPT !.same = Range(@)] : i \in DOMAIN ev.post}
@@ -55,7 +57,7 @@ Note(reg, x) == TLCSet(reg, TLCGet(reg) \cup {x})
 Count(reg) == TLCSet(reg, TLCGet(reg) + 1)
 
 TraceInit ==
-    /\ l = 1 /\ st = InitSt /\ bad = FALSE
+    /\ l = 1 /\ st = InitSt /\ bad = FALSE /\ w = "none" /\ mt = ""
     /\ TLCSet(1, {}) /\ TLCSet(2, {}) /\ TLCSet(3, 0) /\ TLCSet(4, 0) /\ TLCSet(5, 0)
 
 TraceStep ==
@@ -64,13 +66,19 @@ TraceStep ==
     /\ TLCSet(3, l)
     /\ LET ev == Trace[l]
            pre == IF ev.i = 1 THEN InitSt ELSE st
+           wpre == IF ev.i = 1 THEN "none" ELSE w
            skip == ev.i # 1 /\ bad IN
-       IF skip THEN UNCHANGED <<st, bad>> /\ Count(5)
+       IF skip THEN UNCHANGED <<st, bad, w, mt>> /\ Count(5)
+       ELSE IF ev.call.op = "wrap" THEN
+            \* from here on the calls of this trace go through a wrapper around the same base
+            st' = pre /\ bad' = FALSE /\ w' = ev.call.flag[1] /\ mt' = ev.mt /\ Count(4)
        ELSE
        LET call == IF Impl = "osfs" THEN ev.call ELSE CleanCall(ev.call)
-           match == {o \in Outcomes(Impl, pre, call) : Matches(o, ev)}
+           mtok == wpre # "rofs" \/ ev.mt = mt
+           match == {o \in WOutcomes(wpre, Impl, pre, call) : Matches(o, ev) /\ BaseUntouched(wpre, pre, o) /\ mtok}
            strict == {o \in match : o.kf = ""} IN
        /\ Count(4)
+       /\ w' = wpre /\ mt' = (IF wpre = "rofs" THEN mt ELSE ev.mt)
        /\ IF strict # {} THEN
               LET o == CHOOSE x \in strict : TRUE IN st' = o.st /\ bad' = FALSE
           ELSE IF match # {} THEN
